@@ -753,7 +753,9 @@ Definition db_merge (d : db) (k : disk) (order : list N) : db * disk * option ee
   let c := d_cfg d in
   let '(d1, ev1) := db_rotate d in
   let non_merge := d_active_id d1 in
-  let ev2 := match k_merge k with Some _ => [EvRemoveAllMerge; EvMkdirMerge] | None => [EvMkdirMerge] end in
+  (* a left-over merge directory: its finished-marker goes first (RemoveAll unlinks entry by entry; whatever
+     an interrupted RemoveAll leaves behind must not look like a finished merge), then the directory *)
+  let ev2 := match k_merge k with Some _ => [EvRemove MMarker; EvRemoveAllMerge; EvMkdirMerge] | None => [EvMkdirMerge] end in
   let '(a0, ev3) := h_open (c_io c) (MData 0) false lf_empty in
   let '(h0, ev4) := hf_open_new (c_io c) in
   let m0 := mkMs 0 a0 [] h0 in
@@ -840,7 +842,9 @@ Definition db_merge_i (d : db) (k : disk) (order : list N) (pro : list mop) (sch
   let c := d_cfg d in
   let '(d1, ev1) := db_rotate d in
   let non_merge := d_active_id d1 in
-  let ev2 := match k_merge k with Some _ => [EvRemoveAllMerge; EvMkdirMerge] | None => [EvMkdirMerge] end in
+  (* a left-over merge directory: its finished-marker goes first (RemoveAll unlinks entry by entry; whatever
+     an interrupted RemoveAll leaves behind must not look like a finished merge), then the directory *)
+  let ev2 := match k_merge k with Some _ => [EvRemove MMarker; EvRemoveAllMerge; EvMkdirMerge] | None => [EvMkdirMerge] end in
   let '(d1p, evp) := run_mops d1 pro in
   let '(a0, ev3) := h_open (c_io c) (MData 0) false lf_empty in
   let '(h0, ev4) := hf_open_new (c_io c) in
